@@ -117,9 +117,22 @@ def diagnose_parity(a, evs, bad, base_key, readd=None):
     return "parity-mismatch/content-saved-before-queued-parity-write"
 
 
-def followup(a, fs, res, label, replay, variant, state_final, nlev_loss_rng, killed_events=None, readd=None):
+def followup(a, fs, res, label, replay, variant, state_final, nlev_loss_rng, killed_events=None, readd=None, retouch=None):
     """sync again -> exit 0 -> parity oracle -> sampled recovery -> check."""
     V = res["violations"]
+    if retouch:
+        # between the interruption and the resume some of the pending files get a new time-stamp (same bytes, e.g. restored
+        # from a backup that does not keep time-stamps): whatever the interrupted run recorded about them is out of date
+        state_final = {d: dict(es) for d, es in state_final.items()}
+        for (d, nm) in retouch:
+            e = state_final[d].get(nm)
+            p = os.path.join(os.fsencode(a.ddir(d)), nm)
+            if e is None or e[0] != "file" or not os.path.isfile(p):
+                continue
+            mt = fs.clock.next()
+            os.utime(p, ns=(mt, mt))
+            fs._remember(d, nm, e[1], mt)
+            state_final[d][nm] = ("file", e[1], mt)
     if readd:
         # between the interruption and the resume the user brings back data that was pending deletion,
         # under another name (same bytes): nothing may be trusted from before the interruption
@@ -190,7 +203,7 @@ def run_sync_scenario(case):
     tpl = None
     try:
         if adds_only:
-            scen.mutate(fs, rng, rng.randint(3, 7), hostile=0.1, ops=["create", "create", "copy", "mkdir"], maxblocks=4)
+            scen.mutate(fs, rng, rng.randint(3, 7), hostile=0.1, ops=["create", "create", "copy", "copy", "mkdir"], maxblocks=4)
         elif idx % 4 == 3:
             # deletions only: nothing else competes for the freed positions when the data comes back
             c0 = a.load_content()
@@ -365,7 +378,18 @@ def run_sync_scenario(case):
                             if parent_ok:
                                 readd.append((d, s_, data))
                     replay = dict(replay, readd=[evidence.jsonable(x[1]) for x in readd])
-            followup(a, fs, res, label + (" + old data re-added before the resume" if readd else ""), replay, variant, state_final, rng, killed_events=ev2, readd=readd)
+            retouch = None
+            if readd is None and rng.random() < 0.65:
+                pend = [(d, s_) for d in a.disks for s_, e in state_final[d].items()
+                        if e[0] == "file" and len(e[1]) > 0 and state0[d].get(s_) != e and not fs.links_of(d, s_)]
+                # copies (same size and time-stamp as a file synced before) are recorded with borrowed hashes: always candidates
+                stamps0 = {(len(e[1]), e[2]) for d in a.disks for e in state0[d].values() if e[0] == "file"}
+                retouch = [x for x in pend if rng.random() < (0.9 if (len(state_final[x[0]][x[1]][1]), state_final[x[0]][x[1]][2]) in stamps0 else 0.5)] or None
+                if retouch:
+                    replay = dict(replay, retouch=[evidence.jsonable(x[1]) for x in retouch])
+                    res["counters"]["resumes_after_retouch"] = res["counters"].get("resumes_after_retouch", 0) + 1
+            followup(a, fs, res, label + (" + old data re-added before the resume" if readd else "") + (" + pending files re-timed before the resume" if retouch else ""),
+                     replay, variant, state_final, rng, killed_events=ev2, readd=readd, retouch=retouch)
             if _unmatched(res) >= 4:
                 break
         res["counters"]["points_fired"] = fired
